@@ -15,6 +15,7 @@ import Sonic.Model.Schema
 import Sonic.Model.Lazy
 import Sonic.Model.Dom
 import Sonic.Model.Pool
+import Sonic.Model.Access
 
 /-!
 # Line-protocol driver (`sonic_model`)
@@ -97,7 +98,7 @@ def stepLocal (toks : List String) : String :=
     match hexes.mapM parseHex with
     | some texts => if texts.isEmpty then "bad-op" else " | ".intercalate (texts.map specParseStr)
     | none => "bad-op"
-  | "thr-ro" :: _ | "thr-own" :: _ | "thr-pool" :: _ => "ok"   -- replaced by Sonic.Model.Access.runLine when that model lands
+  | "thr-ro" :: _ | "thr-own" :: _ | "thr-pool" :: _ => Sonic.Model.Access.runLine toks
   | ["spec-decimal", n] =>
     match n.toNat? with
     | some v => hexOf (Sonic.Spec.decimal v)
